@@ -158,4 +158,47 @@ theorem eql_two (w : World) (a b : Json) (h : foldOpt (addJwks w) (optsOf [('i',
   simp [fail]
   split <;> simp_all
 
+
+/-! ### jose jwe fmt -/
+
+/-- **Compact output of an object with more than one recipient fails** (and of one whose "recipients" is
+    not a list of exactly one element): whatever else the command line and the object hold, `jose jwe fmt -c`
+    exits with failure and writes nothing (after fix `989df74`). -/
+theorem jwe_fmt_compact_many_fails (w : World) (argv : List String) (os : List (Char × String)) (arg : String) (inp : Input)
+    (r : Json)
+    (ho : parseOpts ['i', 'I', 'o', 'O'] argv = some os) (hi : lastOpt os 'i' = some arg)
+    (hin : inputSet w jweFields arg = some inp) (hc : hasFlag os 'c' = true)
+    (hr : inp.obj.get? "recipients" = some r) (hne : ∀ e, r ≠ .arr [e]) :
+    jweFmt w argv = fail := by
+  simp only [jweFmt, ho, hi, Option.map_some, hin, hc, hr]
+  split
+  · rfl
+  · have hcnt : (match (some r : Option Json) with | none => true | some (.arr [_]) => true | some _ => false) = false := by
+      cases r with
+      | arr l =>
+        cases l with
+        | nil => rfl
+        | cons e t =>
+          cases t with
+          | nil => exact absurd rfl (hne e)
+          | cons _ _ => rfl
+      | _ => rfl
+    simp [hcnt]
+
+/-- the compact conversion reads each leading field from the single recipient or from the top level;
+    a field of another JSON type is a failure, an absent one is the empty text -/
+theorem compactFieldOf_top (obj : Json) (k : String) (h : obj.get? "recipients" = none) :
+    compactFieldOf obj k (some "recipients") = (optMember obj k).map (·.getD "") := by
+  simp [compactFieldOf, h]
+
+/-- non-vacuity: a two-recipient object, `-c` -/
+example : ((jweFmt {} ["-i", "{\"ciphertext\":\"AA\",\"tag\":\"AA\",\"recipients\":[{\"encrypted_key\":\"AA\"},{\"encrypted_key\":\"AQ\"}]}", "-c"]).status,
+    (jweFmt {} ["-i", "{\"ciphertext\":\"AA\",\"tag\":\"AA\",\"recipients\":[{\"encrypted_key\":\"AA\"},{\"encrypted_key\":\"AQ\"}]}", "-c"]).stdout) = (1, []) := by
+  decide +kernel
+
+/-- and a one-recipient object in general form converts -/
+example : (jweFmt {} ["-i", "{\"ciphertext\":\"AA\",\"tag\":\"AQ\",\"iv\":\"Ag\",\"protected\":\"cA\",\"recipients\":[{\"encrypted_key\":\"Aw\"}]}", "-c"]).stdout
+    = bs "cA.Aw.Ag.AA.AQ" := by
+  decide +kernel
+
 end Jose.Props.C18
